@@ -67,8 +67,9 @@ def generate_voxel_grid(bbox, szval, use_cubes=False):
 
     # It is possible to use cubes instead of cuboids
     if use_cubes:
-        # A zero step size (bounding box with no extent in that direction) cannot be the edge length of a cube
-        min_val = min([s for s in steps if s > 0.0] or [0.0])
+        # A zero step size (bounding box with no extent in that direction, also if it is only a round-off error of the
+        # control points of a planar rational surface) cannot be the edge length of a cube
+        min_val = min([s for s in steps if s > 1e-10 * max(steps)] or [0.0])
         steps = [min_val for _ in range(0, 3)]
 
     # Find range in each direction
